@@ -8,7 +8,7 @@ Case = {'cidr': '10.0.0.0/29', 'ops': [...]}, ops (owners / apps / protos / endp
   ['rcreate', RULE, o] ['runlink', RULE, o] ['rgc']                            RuleMgr
   ['ecreate', SPEC, o|None] ['eunlink', SPEC, o|None]
   ['eunlinkall', app, proto|None, endpoint|None, o|None] ['egc']               EndpointsMgr
-  ['srestart'] ['screate', o, env] ['sdelete', o] ['ssync'] ['devgone', o]     NetworkResourceService
+  ['srestart'] ['screate', o, env[, 'replay'|'cut']] ['sdelete', o] ['ssync'] ['devgone', o]     NetworkResourceService
 RULE = [chain, 'dnat'|'snat', proto, src_ip|None, src_port|None, dst_ip|None, dst_port|None, new_ip, new_port]
        | [chain, 'pt', src_ip, dst_ip]
 SPEC = [appname, proto, endpoint, real_port, pid, port]
@@ -21,7 +21,9 @@ netdev / iptables are replaced by recording fakes (a dict of veth devices, two i
 import errno
 import ipaddress
 import os
+import random
 import shutil
+import subprocess
 import tempfile
 
 import mock
@@ -64,7 +66,12 @@ def _mkrule(rng, ips):
     if kind == 'pt':
         return [rng.choice(['chain_a', 'chain_b']), 'pt', rng.choice(['4.4.4.4', '5.5.5.5']), rng.choice(ips)]
     anyip = rng.choice([None, '1.2.3.4'])
-    return [rng.choice(['chain_a', 'chain_b']), kind, rng.choice(['tcp', 'udp']),
+    # side stream: rule files `create_rule` writes but `get_rule` cannot parse back (a chain with a dash,
+    # another protocol) - owned, released and collected like any other
+    r2 = random.Random(repr(rng.getstate()[1][:4]))
+    odd = r2.random() < 0.15
+    return [rng.choice(['chain_a', 'chain_b']) if not odd or r2.random() < 0.5 else 'TM-EDGE_DNAT', kind,
+            rng.choice(['tcp', 'udp']) if not odd or r2.random() < 0.5 else 'sctp',
             anyip if kind == 'dnat' else rng.choice(ips), None if kind == 'dnat' else rng.choice([80, 8080]),
             '1.2.3.4' if kind == 'dnat' else None, rng.choice([5000, 5001]) if kind == 'dnat' else None,
             rng.choice(ips) if kind == 'dnat' else '1.2.3.4', rng.choice([80, 8080])]
@@ -196,8 +203,26 @@ def gen_case(rng, pid, tier):
             if malformed and rng.random() < 0.15:
                 env = 'bogus'
             if '#' not in who:
-                ops.append(['screate', who, env])
-                clients.add(who)
+                # side stream: one request in five fails while its veth pair is made (netdev raising) -
+                # answered with an error and, usually, sent again later
+                r2 = random.Random(repr(rng.getstate()[1][:4]))
+                if r2.random() < 0.2:
+                    ops.append(['screate', who, env, 'cut'])
+                    if r2.random() < 0.5:
+                        clients.add(who)
+                    if r2.random() < 0.6:
+                        # ... while another container asks for an address in between
+                        others = [x for x in sorted(live) if x != who and '#' not in x]
+                        if others:
+                            oth = r2.choice(others)
+                            ops.append(['screate', oth, envof.get(oth, 'dev')])
+                            clients.add(oth)
+                        if who in live:
+                            ops.append(['screate', who, env])
+                            clients.add(who)
+                else:
+                    ops.append(['screate', who, env])
+                    clients.add(who)
         elif r < 0.97:
             # service restart as `_base_service` runs it: initialize, replay live requests, synchronize
             for c in sorted(clients & live):
@@ -235,6 +260,7 @@ class FakeKernel:
         self.devs = {}      # veth0 name -> {'alias':..., 'peer':...}  (insertion ordered)
         self.sets = {}      # ipset name -> set of ips
         self.log = []
+        self.fail_add = False       # armed: the next link_add_veth fails as `ip link add` does
 
     # netdev
     def dev_mtu(self, dev):
@@ -252,6 +278,9 @@ class FakeKernel:
         return 'up'
 
     def link_add_veth(self, veth0, veth1):
+        if self.fail_add:
+            self.fail_add = False
+            raise subprocess.CalledProcessError(2, ['ip', 'link', 'add', veth0])
         self.log.append(('add', veth0))
         self.devs.setdefault(veth0, {'alias': None, 'peer': veth1})
 
@@ -344,7 +373,7 @@ def _exc_kind(exc):
         return 'KeyError'
     if isinstance(exc, AssertionError):
         return 'AssertionError'
-    if type(exc) is Exception:      # pylint: disable=unidiomatic-typecheck
+    if type(exc) is Exception or isinstance(exc, subprocess.CalledProcessError):      # pylint: disable=unidiomatic-typecheck
         return 'Exception'
     return 'Other:%s' % type(exc).__name__
 
@@ -864,6 +893,21 @@ def _run(case, root):
                         if not acted:
                             hit('replay-not-actioned', 'ResourceService._on_created',
                                 'the request of live %s was not replayed into the restarted service' % who)
+                    elif len(op) > 3 and op[3] == 'cut':
+                        line = 'screatecut %d %s' % (intern(who), op[2])
+                        site = 'NetworkResourceService.on_create_request(veth creation fails)'
+                        stats['create-cut'] = stats.get('create-cut', 0) + 1
+                        kern.fail_add = True
+                        try:
+                            out = svc.on_create_request(who, {'environment': op[2]})
+                        finally:
+                            kern.fail_add = False
+                        # (no netdev call was made - the device was known: an ordinary successful request)
+                        os.makedirs(req_dir, exist_ok=True)
+                        with open(os.path.join(req_dir, bsvc.REQ_FILE), 'w') as f_:
+                            yaml_mod.safe_dump({'environment': op[2]}, f_)
+                        with open(os.path.join(req_dir, bsvc.REP_FILE), 'w') as f_:
+                            yaml_mod.safe_dump(dict(out), f_)
                     else:
                         out = svc.on_create_request(who, {'environment': op[2]})
                         # what the base service leaves for a successful request: request.yml and reply.yml
